@@ -55,8 +55,7 @@ class InMemoryMessageBroker(MessageBrokerT):
         for msg in q.processing:
             if msg.key.id_ == key.id_:
                 q.processing.remove(msg)
-                q.taken_by.pop(key.id_, None)
-                q.simple.put_nowait(msg)
+                q.put_back(msg)
                 break
 
         await asyncio.sleep(0)
